@@ -2051,6 +2051,22 @@ fn analyze_structural(
 					};
 					typer.contextual_type = contextual_type;
 					let expression = member.expression.analyze(typer);
+					// The value must have the type of the member.
+					let expression = match (&name, expression.value_type())
+					{
+						(Ok(name), Some(Ok(value_type))) =>
+						{
+							match typer.put_symbol(name, Some(Ok(value_type)))
+							{
+								Ok(()) => expression,
+								Err(error) =>
+								{
+									Expression::Poison(Poison::Error(error))
+								}
+							}
+						}
+						_ => expression,
+					};
 					MemberExpression {
 						name,
 						offset,
